@@ -13,6 +13,7 @@ import Driver.CmdGP
 import Driver.CmdSrch
 import Driver.CmdOpt
 import Driver.CmdDef
+import Driver.CmdDet
 open Lean Driver
 
 def dispatch (cmd : String) (j : Json) : R Json :=
@@ -23,6 +24,7 @@ def dispatch (cmd : String) (j : Json) : R Json :=
   | "ctl.replay" => cmdCtlReplay j
   | "log.run" => cmdLogRun j
   | "pipe.run" => cmdPipeRun j
+  | "det.replay" => cmdDetReplay j
   | "mesh.bounds" => cmdMeshBounds j
   | "poll.dirs" => cmdPollDirs j
   | "prop.dirs" => cmdPropDirs j
